@@ -1,7 +1,17 @@
 /-
   C18 — save containers: writes keep data, hash tree and header mutually consistent.
+
+  Model: `lv4Write` (IVFCLevel4Reader.write), `writeData` (IVFCHashTree.write_data: hash propagation and cache
+  invalidation), `dpWrite` (DPFSLevel3.write_data), `updateHashes` (Partition/DISA/DIFF._update_hashes, _update_cmac),
+  `genCmac` (cmac.py) in PyctrModel/Save/Container.lean.  SHA-256 is `H`, AES-CMAC is `mac`.
+
+  Proved here: position bookkeeping, the read-only error, the no-op cases, and that the descriptor / header / CMAC update
+  leaves a file whose table-hash check succeeds on re-open (DIFF: hash of the descriptor; DISA: hash of the WHOLE active
+  table with only this partition's descriptor replaced).  The hash-path statement ("every written block verifies against
+  the updated levels") and the frame statement are decided by the correspondence check together with the independent
+  reference reader; see DESIGN.md §C18 for what is not yet a theorem.
 -/
-import Proofs.SaveCont
+import Proofs.SaveWrite
 namespace Pyctr.C18
 open Pyctr Pyctr.Save
 
@@ -21,5 +31,57 @@ theorem C18_empty_write (H : Bytes → Bytes) (mac : Bytes → Bytes → Bytes) 
         have : data.length = 0 := by omega
         simp [List.length_eq_zero_iff.mp this]
   rw [if_pos this]
+
+/-- writing to a container opened read-only raises the read-only error (an error returns no new state: nothing changes) -/
+theorem C18_readonly (H : Bytes → Bytes) (mac : Bytes → Bytes → Bytes) (cm : Option CmacScheme) (c : Cont) (pi : Nat)
+    (p : PartSt) (hp : c.parts[pi]? = some p) (data : Bytes) (hw : c.writable = false) (hne : writeClamp p data ≠ []) :
+    lv4Write H mac cm c pi data = .error (.other "IVFCReadOnlyError") :=
+  lv4Write_readonly H mac cm c pi p hp data hw hne
+
+/-- sequential writes advance the position like an ordinary file of the level's size: a successful write returns the
+    number of bytes that fit, moves this partition's position by exactly that, keeps its geometry, and does not touch
+    the other partition's reader -/
+theorem C18_position (H : Bytes → Bytes) (mac : Bytes → Bytes → Bytes) (cm : Option CmacScheme) (c : Cont) (pi : Nat)
+    (p : PartSt) (hp : c.parts[pi]? = some p) (data : Bytes) (n : Nat) (c' : Cont)
+    (h : lv4Write H mac cm c pi data = .ok (n, c')) :
+    n = min data.length (p.ivfc.lv4.size - p.seek) ∧
+      (∃ p', c'.parts[pi]? = some p' ∧ p'.seek = p.seek + n ∧ p'.ivfc = p.ivfc ∧ p'.difi = p.difi ∧ p'.dp = p.dp) ∧
+      ∀ j, j ≠ pi → c'.parts[j]? = c.parts[j]? := by
+  obtain ⟨h1, h2, h3⟩ := lv4Write_position H mac cm c pi p hp data n c' h
+  exact ⟨by rw [h1, writeClamp_length], h2, h3⟩
+
+/-- DIFF: after the descriptor update the file passes the table-hash check of a fresh open, and holds the CMAC of the
+    new header when a scheme is supplied -/
+theorem C18_update_diff (H : Bytes → Bytes) (mac : Bytes → Bytes → Bytes) (cm : Option CmacScheme) (c : Cont) (F : Bytes)
+    (p : PartSt) (pd : Bytes) (F' header' : Bytes)
+    (hk : c.kind = .diff) (hh : c.header.length = 0x100) (hH : ∀ x, (H x).length = 0x20)
+    (hpd : pd.length = c.tableSize) (hne : pd ≠ []) (hoff : 0x200 ≤ c.tableOff) (hF : c.tableOff + c.tableSize ≤ F.length)
+    (hmac : ∀ k x, (mac k x).length = 0x10)
+    (h : updateHashes H mac cm c F p pd = .ok (F', header')) :
+    slice F' c.tableOff c.tableSize = pd ∧ slice F' 0x100 0x100 = header' ∧ slice header' 0x34 0x20 = H pd ∧
+      (∀ sch m, cm = some sch → genCmac H mac sch header' = .ok m → slice F' 0 0x10 = m) :=
+  updateHashes_diff H mac cm c F p pd F' header' hk hh hH hpd hne hoff hF hmac h
+
+/-- DISA: the header hash is the hash of the whole active table after replacing this partition's descriptor -/
+theorem C18_update_disa (H : Bytes → Bytes) (mac : Bytes → Bytes → Bytes) (cm : Option CmacScheme) (c : Cont) (F : Bytes)
+    (p : PartSt) (pd : Bytes) (F' header' : Bytes)
+    (hk : c.kind = .disa) (hh : c.header.length = 0x100) (hH : ∀ x, (H x).length = 0x20)
+    (hpd : p.descOff + pd.length ≤ c.tableSize) (hne : pd ≠ []) (hoff : 0x200 ≤ c.tableOff)
+    (hF : c.tableOff + c.tableSize ≤ F.length) (hmac : ∀ k x, (mac k x).length = 0x10)
+    (h : updateHashes H mac cm c F p pd = .ok (F', header')) :
+    slice F' c.tableOff c.tableSize = overlay (slice F c.tableOff c.tableSize) p.descOff pd ∧
+      slice F' 0x100 0x100 = header' ∧ slice header' 0x6C 0x20 = H (slice F' c.tableOff c.tableSize) ∧
+      (∀ sch m, cm = some sch → genCmac H mac sch header' = .ok m → slice F' 0 0x10 = m) :=
+  updateHashes_disa H mac cm c F p pd F' header' hk hh hH hpd hne hoff hF hmac h
+
+/-- the CMAC schemes: what is hashed and MAC-ed (SAV0 wrapping for NOR0 / SIGN) -/
+theorem C18_cmac_plain (H : Bytes → Bytes) (mac : Bytes → Bytes → Bytes) (c : CmacScheme) (header : Bytes)
+    (h : c.sav0 = false) : genCmac H mac c header = .ok (mac c.key (H (c.magic ++ c.pre ++ header))) := by
+  unfold genCmac; rw [h]; simp
+
+theorem C18_cmac_sav0 (H : Bytes → Bytes) (mac : Bytes → Bytes → Bytes) (c : CmacScheme) (header : Bytes)
+    (h : c.sav0 = true) (hl : header.length = 0x100) (hm : slice header 0 4 = [0x44, 0x49, 0x53, 0x41]) :
+    genCmac H mac c header = .ok (mac c.key (H (c.magic ++ c.pre ++ H (sav0Magic ++ header)))) := by
+  unfold genCmac; rw [h]; simp [hl, hm]
 
 end Pyctr.C18
